@@ -8,6 +8,9 @@ package pki
 // same two regular languages), idna.ToASCII (identity: names are ASCII), identity templating (off).
 //
 //vx:pkg github.com/openbao/openbao/v2/internal/builtin/logical/pki
+//vx:assume regexp is replaced by hand-written recognisers of hostnameRegex and leftWildLabelRegex; idna.ToASCII is the identity on ASCII names and refuses empty labels
+//vx:assume names range over ALL strings over the alphabet {a,e,c,E,'.','*','@','-'} up to the length bound; the role has one allowed domain ('e' in quick, 'e.c' in thorough), optionally as the glob '*.<domain>'
+//vx:assume callers never pass an empty name (an empty return value means 'accepted')
 //vx:bodies github.com/ryanuber/go-glob,unicode,github.com/hashicorp/go-secure-stdlib/strutil
 //vx:include lifetime.go
 //vx:redirect regexp.MustCompile vxMustCompile
